@@ -15,6 +15,7 @@
     one flush per message, messages taken from the FIFO channel in order; the receive
     side strips the newline and forwards each line once; pop_messages drains the channel
     with try_iter().collect(); send_message forwards a clone of its argument."""
+import os
 import bv
 import cfg as cfgmod
 import isa as isamod
@@ -107,11 +108,44 @@ def part_a(facts, res):
                     return [(okv, Enum(models.OK, [UNIT])), (bv.M.NOT(okv), Enum(models.ERR, [Opaque("e")]), lambda s: s.tag("failed:parse_u8"))]
                 return UNIT
             return f
+        have_handlers = all(len(facts.find(nm)) == 1 for nm in ("parse_u8", "parse_ioport")) and os.environ.get("H8_C18_INLINE") != "1"
+        state["inline"] = not have_handlers
         for nm in ("parse_u8", "parse_ioport", "pop_messages"):
             k = facts.find(nm)
+            if nm != "pop_messages" and not have_handlers:
+                continue
             if len(k) != 1:
                 raise RuntimeError("anchor %s: %r" % (nm, k))
             ip.primitives[k[0]] = p_pop if nm == "pop_messages" else p_parse(nm)
+        if not have_handlers:
+            # no parse_u8 / parse_ioport to summarise: whatever handles the lines is followed down to the effects themselves
+            def m_radix(ip_, st, fr, t, args):
+                tm = strmodel.term_of(ip_, st, args[0])
+                radix = bv.to_int(args[1].bits) if isinstance(args[1], Int) else None
+                w = ip_.int_info(ip_.types[t["dest"]["ty"]]["args"][0])[0]
+                v = bv.seq_bv("num_%s_%d" % (abs(hash(tm)) % 100000, w), w)
+                i = st.count("ctl")
+                okv = bv.ctl_var("hex", i)
+                return [(okv, Enum(models.OK, [Int(v)]), lambda s: s.add_eff(("radix", tm, radix, w, v, True))),
+                        (bv.M.NOT(okv), Enum(models.ERR, [Opaque("parse-error")]), lambda s: s.add_eff(("radix", tm, radix, w, None, False)))]
+            ip.pattern_models.insert(0, (lambda p, f: p.endswith("::from_str_radix"), m_radix))
+
+            def p_write(ip_, st, fr, t, args):
+                a_ = args[1].bits if isinstance(args[1], Int) else None
+                v_ = args[2].bits if isinstance(args[2], Int) else None
+                i = st.count("ctl")
+                okv = bv.ctl_var("wok", i)
+                return [(okv, Enum(models.OK, [UNIT]), lambda s: s.add_eff(("bus.write", a_, v_, True))),
+                        (bv.M.NOT(okv), Enum(models.ERR, [Opaque("buserr")]), lambda s: s.add_eff(("bus.write", a_, v_, False)))]
+
+            def p_port(ip_, st, fr, t, args):
+                st.add_eff(("write_port", args[1].bits if isinstance(args[1], Int) else None, args[2].bits if isinstance(args[2], Int) else None, True))
+                return UNIT
+            ip.primitives[facts.body("bus::Bus::write")["key"]] = p_write
+            kp = facts.find("write_port")
+            if len(kp) != 1:
+                raise RuntimeError("anchor write_port: %r" % kp)
+            ip.primitives[kp[0]] = p_port
         ip.models["<std::vec::Vec<T, A> as std::iter::IntoIterator>::into_iter"] = m_into_iter
         ip.models["<std::vec::IntoIter<T, A> as std::iter::Iterator>::next"] = m_next
     I, ip, outs, info, names, body, g, busfi = c13.analyse(facts, with_socket=True, extra_setup=setup)
@@ -179,7 +213,8 @@ def part_a(facts, res):
                 else:
                     res.ob(bool(failed))
                     if not failed:
-                        res.finding("dispatch|error-return", "a control line makes run return an error", witness(care0))
+                        res.finding("parse_u8|error" if any(x[0] == "bus.write" and not x[3] for x in this_msg) else "dispatch|error-return",
+                                    "a control line makes run return an error (a malformed or failing line must be ignored)", witness(care0))
                 continue
             # the trace goes on with the next line (or was cut at the bound)
             seen["continues"] = 1
@@ -187,7 +222,41 @@ def part_a(facts, res):
             res.ob(bad == 0)
             if bad != 0:
                 res.finding("dispatch|stop-ignored", "cmd:stop does not end execution", witness(bad))
-            for kw, nm in ((u8, "parse_u8"), (iop, "parse_ioport")):
+            if state.get("inline"):
+                len3 = bv.eq(lenv(n), bv.const(3, 64))
+                acts = [x for x in this_msg if x[0] in ("bus.write", "write_port")]
+                rad = [x for x in this_msg if x[0] == "radix"]
+                parse_failed = any(not x[5] for x in rad)
+                vec_ = ("split", ("msg", n), 58)
+                by = {x[1]: x for x in rad if x[5]}
+                f1 = by.get(("field", vec_, 1))
+                f2 = by.get(("field", vec_, 2))
+                res.ob(len(acts) <= 1)
+                if len(acts) > 1:
+                    res.finding("dispatch|effects|count", "one control line performs %d writes" % len(acts), witness(care0))
+                for a_ in acts[:1]:
+                    isw = a_[0] == "bus.write"
+                    kwc = Mx.AND(u8 if isw else iop, len3)
+                    bad = Mx.AND(care0, Mx.NOT(kwc))
+                    res.ob(bad == 0)
+                    if bad != 0:
+                        res.finding("parse_%s|field-count" % ("u8" if isw else "ioport"), "a %s is performed for a line that is not '%s' with exactly 3 fields"
+                                    % ("memory write" if isw else "port write", "u8" if isw else "ioport"), witness(bad))
+                    w1 = 32 if isw else 8
+                    okk = f1 is not None and f2 is not None and f1[2] == 16 and f2[2] == 16 and f1[3] == w1 and f2[3] == 8 \
+                        and a_[1] is not None and a_[2] is not None and tuple(a_[1]) == tuple(f1[4]) and tuple(a_[2]) == tuple(f2[4])
+                    res.ob(okk)
+                    seen["act-" + ("u8" if isw else "ioport")] = 1
+                    if not okk:
+                        res.finding("parse_%s|arguments" % ("u8" if isw else "ioport"), "the %s is not given hex(field 1), hex(field 2) of the line (radix %r/%r)"
+                                    % ("memory write" if isw else "port write", f1 and f1[2], f2 and f2[2]), witness(care0))
+                if not acts and not parse_failed:
+                    for kw_, nm_ in ((u8, "u8"), (iop, "ioport")):
+                        bad = Mx.AND(care0, Mx.AND(kw_, len3))
+                        res.ob(bad == 0)
+                        if bad != 0:
+                            res.finding("dispatch|parse_%s|missed" % nm_, "a well-formed %s line (3 fields, hex numbers) performs no write" % nm_, witness(bad))
+            for kw, nm in (() if state.get("inline") else ((u8, "parse_u8"), (iop, "parse_ioport"))):
                 has = nm in kinds
                 if has:
                     bad = Mx.AND(care0, Mx.NOT(kw))
@@ -213,7 +282,9 @@ def part_a(facts, res):
         if len(res.samples) < 4:
             res.samples.append({"effects": [e[0] if e[0] != "next" else "next(%s,%s)" % (e[1], e[2]) for e in effs][:14], "outcome": o.kind})
     res.inventory["traces_with_control_lines"] = followed
-    for k in ("continues", "stop"):
+    res.inventory["control_line_mode"] = "handlers followed to Bus::write / write_port (no parse_u8 / parse_ioport summaries)" if state.get("inline") else "parse_u8 / parse_ioport summarised (part B analyses them)"
+    for k in ("continues", "stop") + (("act-u8", "act-ioport") if state.get("inline") else ()):
+        seen.setdefault(k, 0)
         res.ob(bool(seen[k]))
         if not seen[k]:
             res.errors.append("no trace of kind '%s' analysed (vacuous)" % k)
@@ -231,6 +302,8 @@ def part_a(facts, res):
 
 
 def part_b(facts, res):
+    if not all(len(facts.find(nm)) == 1 for nm in ("parse_u8", "parse_ioport")) or os.environ.get("H8_C18_INLINE") == "1":
+        return     # no separate handlers: part A followed the lines down to the writes themselves
     for nm in ("parse_u8", "parse_ioport"):
         bv.reset()
         strmodel.reset()
@@ -422,17 +495,83 @@ def part_c(facts, res):
         else:
             e = bv.data_bv("el%d" % k, 21) + (0,) * 11
             valid = Mx.AND(bv.ult(e, bv.const(0x110000, 32)), Mx.NOT(Mx.AND(bv.ule(bv.const(0xD800, 32), e), bv.ule(e, bv.const(0xDFFF, 32)))))
-        return [(valid, Enum(models.SOME, [Int(e)]), lambda s, e=e, kind=kind, src=src: s.add_eff(("el", kind, src, e))),
+        item = Int(e)
+        hook_ref = None
+        if "slice::Iter<" in (t["callee"].get("full") or ""):
+            # an iterator over a byte slice yields references
+            root_ = ("elref", k)
+            item = Ref(root_, ())
+
+            def hook_ref(s, root_=root_, e=e):
+                s.mem[root_] = Int(e)
+
+        def some_hook(s, e=e, kind=kind, src=src, hook_ref=hook_ref):
+            if hook_ref:
+                hook_ref(s)
+            s.add_eff(("el", kind, src, e))
+        return [(valid, Enum(models.SOME, [item]), some_hook),
                 (None, Enum(models.NONE, []), lambda s, kind=kind, src=src: s.add_eff(("el-done", kind, src)))]
+
+    def m_bytes_iter(ip_, st, fr, t, args):
+        # iter() / into_iter() on the byte slice of a string
+        v = strmodel.val_of(ip_, st, args[0])
+        tm = v.data if isinstance(v, Opaque) and v.tag == "str" else None
+        if isinstance(tm, tuple) and tm and tm[0] == "bytes":
+            return Opaque("eliter", ("bytes", tm[1]))
+        if isinstance(args[0], Opaque) and args[0].tag == "eliter":
+            return args[0]
+        return None
+
+    def m_str_as_bytes(ip_, st, fr, t, args):
+        tm = strmodel.term_of(ip_, st, args[0])
+        return strmodel.S(("bytes", tm)) if tm is not None else None
+
+    def m_vec_new(ip_, st, fr, t, args):
+        rt = ip_.types[t["dest"]["ty"]]
+        et = ip_.types[rt["args"][0]] if rt.get("args") else {}
+        if et.get("k") == "int" and et.get("bits") == 8:
+            return strmodel.S(("build", "", ()))      # a byte buffer that is filled piecewise: same builder as a String
+        return None
+
+    def m_vec_push_byte(ip_, st, fr, t, args):
+        bt = builder_of(ip_, st, args[0])
+        if bt is None or not isinstance(args[1], Int) or len(args[1].bits) != 8:
+            return None
+        return append(ip_, st, args[0], ("alts", ((1, (tuple(args[1].bits),)),)))
+
+    def m_extend_from_slice(ip_, st, fr, t, args):
+        bt = builder_of(ip_, st, args[0])
+        if bt is None:
+            return None
+        v = strmodel.val_of(ip_, st, args[1])
+        # a constant byte string literal (b"\\\\") reaches us as an array / slice of constant bytes
+        if isinstance(v, Agg) and all(isinstance(x, Int) and bv.to_int(x.bits) is not None for x in v.fields):
+            return append(ip_, st, args[0], ("alts", ((1, tuple(tuple(x.bits) for x in v.fields)),)))
+        tm = v.data if isinstance(v, Opaque) and v.tag == "str" else None
+        if isinstance(tm, str):
+            return append(ip_, st, args[0], const_seg(tm))
+        if isinstance(tm, tuple) and tm and tm[0] == "bytes" and isinstance(tm[1], str):
+            return append(ip_, st, args[0], const_seg(tm[1]))
+        return None
     ip.models["std::string::String::new"] = m_string_new
     ip.models["std::string::String::with_capacity"] = m_string_new
     ip.models["std::string::String::push_str"] = m_push_str
     ip.models["std::string::String::push"] = m_push
     ip.models["std::string::String::len"] = m_string_len
+    ip.models["core::str::<impl str>::len"] = m_string_len
     ip.models["core::str::<impl str>::bytes"] = m_elems("bytes")
     ip.models["core::str::<impl str>::chars"] = m_elems("chars")
     ip.models["<I as std::iter::IntoIterator>::into_iter"] = m_el_iter
     ip.models["<std::str::Bytes<'_> as std::iter::Iterator>::next"] = m_el_next
+    ip.models["<std::slice::Iter<'a, T> as std::iter::Iterator>::next"] = m_el_next
+    ip.models["core::slice::<impl [T]>::iter"] = m_bytes_iter
+    ip.models["core::slice::iter::<impl std::iter::IntoIterator for &'a [T]>::into_iter"] = m_bytes_iter
+    ip.models["core::str::<impl str>::as_bytes"] = m_str_as_bytes
+    ip.models["std::string::String::as_bytes"] = m_str_as_bytes
+    ip.models["std::vec::Vec::<T>::new"] = m_vec_new
+    ip.models["std::vec::Vec::<T>::with_capacity"] = m_vec_new
+    ip.models["std::vec::Vec::<T, A>::push"] = m_vec_push_byte
+    ip.models["std::vec::Vec::<T, A>::extend_from_slice"] = m_extend_from_slice
     ip.models["<std::str::Chars<'a> as std::iter::Iterator>::next"] = m_el_next
 
     def at_header(ip_, st, fr, n):
@@ -460,6 +599,13 @@ def part_c(facts, res):
     inner = [h for h in loops if h != header and h in loops[header]]
     for h in inner:
         ip.block_hooks[(key, h)] = mk_inner(h)
+    # loops inside helper functions the worker calls (e.g. a separate escape / framing function)
+    cgraph = cfgmod.CallGraph(facts)
+    for bk in sorted(k_ for k_ in cgraph.reachable(key) if k_ in facts.bodies and k_ != key):
+        for h_ in cfgmod.Cfg(facts.bodies[bk]).loops():
+            hid = "%s/%d" % (bk.split("::")[-1], h_)
+            ip.block_hooks[(bk, h_)] = mk_inner(hid)
+            ip.hooks_any_depth = True
     outs = ip.run_all(key, [Agg([Opaque("writer"), Opaque("rx")])], {})
     if ip.unknown_callees:
         res.errors.append("unmodelled callees in the send worker: %r" % ip.unknown_callees)
